@@ -37,6 +37,11 @@ func (pc *parentController) syncRollingUpdate(parentRevisions []*parentRevision,
 	// Give the latest revision any children it desires that aren't claimed yet,
 	// or that don't need any changes to match the desired state.
 	latest := parentRevisions[0]
+	// The rollout condition below is written into the status the hook returned;
+	// a hook that omits status gives us a nil map.
+	if latest.syncResult.Status == nil {
+		latest.syncResult.Status = make(map[string]interface{})
+	}
 	for gvk, objects := range latest.desiredChildMap {
 		// Ignore the API version, because the 'claimed' map is version-agnostic.
 		apiGroup := gvk.Group
